@@ -98,7 +98,7 @@ def judge_quartet(case):
 
 
 def shards_quartets(tier):
-    n, kmax = (2, 2) if tier == "quick" else (12, 3)
+    n, kmax = (2, 2) if tier == "quick" else (20, 3)
     out = []
     for ls in itertools.product(range(4), repeat=4):
         out.append({"id": "".join(map(str, ls)), "ls": list(ls), "n": n, "kmax": kmax, "cost": n * (1 + sum(ls)) ** 3})
@@ -159,7 +159,7 @@ def judge_whole(case):
 
 
 def shards_whole(tier):
-    k, n, lmax = (16, 2, 2) if tier == "quick" else (48, 10, 3)
+    k, n, lmax = (16, 2, 2) if tier == "quick" else (48, 20, 3)
     return [{"id": i, "n": n, "lmax": lmax, "cost": 40 * n} for i in range(k)]
 
 
